@@ -230,11 +230,18 @@ pub fn long_tail_markdown(corpus: &[String], rng: &mut Rng) -> String {
 /// pass makes of the first atom is what the next pass sees in front of the second.
 pub fn glued_pairs() -> Vec<String> {
     let p = ["etc.", "etc", "vs.", "et al.", "e.g.", "i.e.", "...", "..", ".", "…", "'s", "'", "’", "-", "--", "—", "1st", "2", "3.5", "N.S.A.", "a.m.",
-        "%", "$5", "@a", "#tag", "\"", "”", "“", ",", "!", "?", ":", ";", "(", ")", "/", "&", "x86", "don't", "well-known", "\n", " "];
+        "%", "$5", "@a", "#tag", "\"", "”", "“", ",", "!", "?", ":", ";", "(", ")", "/", "&", "x86", "don't", "well-known", "\n", " ", "I", "A", "b"];
     let mut v = Vec::new();
     for a in p { for b in p {
         v.push(format!("pears {a}{b} and more"));
         if a != b { v.push(format!("{a}{b}")); }
+        // the pair as the very last thing of the document (passes that look ahead, or finish a run after their
+        // loop, meet the end here), bare or behind one closing token
+        v.push(format!("So do {a}{b}"));
+    } }
+    for a in p { for tail in ["\n", " ", ")", "\"", "\n\n", "”"] {
+        v.push(format!("So do {a}.{tail}"));
+        v.push(format!("{a}.{tail}"));
     } }
     v
 }
